@@ -306,16 +306,32 @@ End WithPredicate.
    Tree.filter / Tree.filtered / Node.filter / Node.filtered raise ValueError
    ("Predicate is required (use copy() instead)") without one;
    Tree.copy / Node.copy fall back to the plain copy of _add_from *)
-Inductive outcome (X : Type) := Ok (x : X) | EValue.
+Inductive outcome (X : Type) := Ok (x : X) | EValue | EUnique.
 Arguments Ok {X} x.
 Arguments EValue {X}.
+Arguments EUnique {X}.
+
+(* Node.add_child refuses a second child with one data_id (UniqueConstraintError).
+   The scan of the copying form adds every node of its result by add_child, and
+   the only thing observable after a refusal is the error, so: the copying form
+   fails iff the tree it would build has two siblings with one data_id.  (With
+   the D24 leaves this happens on legal inputs: an accepted node with a kept
+   child that carries the node's own data.) *)
+Fixpoint did_dup (l : list rt) : bool :=
+  match l with
+  | [] => false
+  | x :: r => existsb (fun y => did_eqb (rdid x) (rdid y)) r || did_dup r
+  end.
+Fixpoint sib_dup_t (t : rt) : bool := match t with T _ _ ch => did_dup ch || existsb sib_dup_t ch end.
+Definition sib_dup (f : forest) : bool := did_dup f || existsb sib_dup_t f.
+Definition copy_result (g : forest) : outcome forest := if sib_dup g then EUnique else Ok g.
 
 Definition api_filter (p : option (nat -> verdict)) (f : forest) : outcome forest :=
   match p with None => EValue | Some v => Ok (filter_inplace v f) end.
 Definition api_filtered (p : option (nat -> verdict)) (f : forest) (nx : nat) : outcome forest :=
-  match p with None => EValue | Some v => Ok (fst (add_filtered v f nx)) end.
-Definition api_copy (p : option (nat -> verdict)) (f : forest) (nx : nat) : forest :=
-  match p with None => fst (copy_f f nx) | Some v => fst (add_filtered v f nx) end.
+  match p with None => EValue | Some v => copy_result (fst (add_filtered v f nx)) end.
+Definition api_copy (p : option (nat -> verdict)) (f : forest) (nx : nat) : outcome forest :=
+  match p with None => copy_result (fst (copy_f f nx)) | Some v => copy_result (fst (add_filtered v f nx)) end.
 
 Section WithPredicate2.
 Variable v : nat -> verdict.
